@@ -153,8 +153,16 @@ def computing_shard(args):
                     if c.span(n)]
         for r in range(1, len(pinnable) + 1):
             for sub in itertools.combinations(pinnable, r):
-                for filler_ in ("max", "min", "distinct"):
-                    pins = {n: bases.bban(c, filler_)[c.span(n)[0]:c.span(n)[1]] for n in sub}
+                for filler_ in ("max", "min", "distinct", "short"):
+                    if filler_ == "short":
+                        # pins shorter than their fields (they are padded): the digits must be computed
+                        # over what ends up in the BBAN
+                        pins = {n: bases.bban(c, "distinct")[c.span(n)[0]:c.span(n)[1]][-3:].lstrip("0") or "1"
+                                for n in sub if n != "national_checksum_digits"}
+                        if not pins:
+                            continue
+                    else:
+                        pins = {n: bases.bban(c, filler_)[c.span(n)[0]:c.span(n)[1]] for n in sub}
                     name = "+".join(sub)
                     nseeds = (6 if tier == "quick" else 40) if r == 1 else (2 if tier == "quick" else 8)
                     for seed in range(nseeds):
